@@ -90,9 +90,14 @@ pub fn fixtures() -> Vec<String> {
 }
 
 /// identifier tokens in variable position: (start, end, name)
-struct VarToks(Vec<(usize, usize, String)>);
+struct VarToks(Vec<(usize, usize, String)>, std::collections::BTreeSet<usize>);
 
 impl VarToks {
+    /// a token that declares a local, a parameter or a loop variable
+    fn decl(&mut self, t: &TokenReference) {
+        self.1.insert(t.token().start_position().bytes());
+        self.tok(t);
+    }
     fn tok(&mut self, t: &TokenReference) {
         if let TokenType::Identifier { identifier } = t.token().token_type() {
             self.0.push((t.token().start_position().bytes(), t.token().end_position().bytes(), identifier.to_string()));
@@ -113,26 +118,26 @@ impl full_moon::visitors::Visitor for VarToks {
     }
     fn visit_local_assignment(&mut self, l: &LocalAssignment) {
         for n in l.names() {
-            self.tok(n);
+            self.decl(n);
         }
     }
     fn visit_function_body(&mut self, b: &FunctionBody) {
         for p in b.parameters() {
             if let Parameter::Name(t) = p {
-                self.tok(t);
+                self.decl(t);
             }
         }
     }
     fn visit_generic_for(&mut self, g: &GenericFor) {
         for n in g.names() {
-            self.tok(n);
+            self.decl(n);
         }
     }
     fn visit_numeric_for(&mut self, n: &NumericFor) {
-        self.tok(n.index_variable());
+        self.decl(n.index_variable());
     }
     fn visit_local_function(&mut self, f: &LocalFunction) {
-        self.tok(f.name());
+        self.decl(f.name());
     }
     fn visit_function_declaration(&mut self, f: &FunctionDeclaration) {
         if let Some(first) = f.name().names().iter().next() {
@@ -142,12 +147,16 @@ impl full_moon::visitors::Visitor for VarToks {
 }
 
 fn var_tokens(ast: &Ast) -> Vec<(usize, usize, String)> {
+    var_tokens_decls(ast).0
+}
+
+fn var_tokens_decls(ast: &Ast) -> (Vec<(usize, usize, String)>, std::collections::BTreeSet<usize>) {
     use full_moon::visitors::Visitor;
-    let mut v = VarToks(Vec::new());
+    let mut v = VarToks(Vec::new(), Default::default());
     v.visit_ast(ast);
     v.0.sort();
     v.0.dedup();
-    v.0
+    (v.0, v.1)
 }
 
 fn canon(ds: &[CheckerDiagnostic], fresh: Option<(&str, &str)>) -> Vec<(String, u32, u32, Vec<(u32, u32)>, String)> {
@@ -208,13 +217,16 @@ fn pick_program(r: &mut Rng, fx: &[String]) -> (String, &'static str) {
 }
 
 /// script variables that share a name with a library global (C14: the name must not matter)
-const LIBNAMED: [&str; 6] = [
+const LIBNAMED: [&str; 9] = [
     "local math = {}\nx, math.y = 1, 2\nprint(math)\n",
     "local function f(table)\n  y, table.z = 1, 2\n  return table\nend\nprint(f)\n",
     "local os = {}\n_G.q, os.clock = 1, 2\nprint(os)\n",
     "local string = 1\nq, string = 2, 3\nprint(string)\n",
     "local table = {}\ntable.insert, table.foo = 1, 2\nprint(table.getn(table), table.zzz)\n",
     "local function g(math, os)\n  print(math.floor(1, 2, 3), os.nope, math.pi)\n  math.pi, os.x = 1, 2\nend\nprint(g)\n",
+    "local queue = {}\ntable.insert(queue, 1)\nlocal function collect(table, value)\n  local seen = {}\n  table.insert(seen, value)\n  return table\nend\nprint(collect)\n",
+    "local function collect(table, value)\n  local seen = {}\n  table.insert(seen, value)\n  return table\nend\nlocal queue = {}\ntable.insert(queue, 1)\nprint(collect)\n",
+    "local log = {}\ndo\n  local table = { insert = print }\n  table.insert(log, 1)\n  table.sort(log)\nend\nlocal other = {}\ntable.insert(other, 2)\ntable.sort(other)\n",
 ];
 
 const RESERVED: [&str; 12] = ["self", "_G", "_", "type", "typeof", "require", "game", "script", "workspace", "plugin", "shared", "_ENV"];
@@ -230,7 +242,7 @@ pub fn generate_c14(seed: u64, n: usize, _thorough: bool) -> Cases {
         let mut r = rng.fork(i as u64);
         let (src, origin) = if r.chance(1, 10) { ((*r.pick(&LIBNAMED)).to_string(), "library-named") } else { pick_program(&mut r, &fx) };
         let (ast, ds) = match lint(&ck, &src) { Some(x) => x, None => continue };
-        let toks = var_tokens(&ast);
+        let (toks, decl_starts) = var_tokens_decls(&ast);
         // script-introduced names: declared as a variable somewhere (scope analysis), not reserved / library / ignored
         let ctx = selene_lib::lints::AstContext::from_ast(&ast);
         let mut names: Vec<String> = ctx.scope_manager.variables.iter().map(|(_, v)| v.name.clone()).collect();
@@ -238,12 +250,15 @@ pub fn generate_c14(seed: u64, n: usize, _thorough: bool) -> Cases {
         names.dedup();
         // a library-named script variable is eligible only if every variable of that name is read somewhere
         // (an unused one is the known class C02-K8: unused_variable stays silent on library names)
+        // (and every variable of that name is a declared local, parameter or loop variable: a script *global* that
+        // shares a library name is the library's entry as far as Lua is concerned)
         let read_somewhere = |nm: &str| {
             ctx.scope_manager.variables.iter().filter(|(_, v)| v.name == nm).all(|(_, v)| {
-                v.references.iter().any(|rid| ctx.scope_manager.references.get(*rid).map(|rf| rf.read).unwrap_or(false))
+                decl_starts.contains(&v.identifiers[0].0)
+                    && v.references.iter().any(|rid| ctx.scope_manager.references.get(*rid).map(|rf| rf.read).unwrap_or(false))
             })
         };
-        names.retain(|nm| !RESERVED.contains(&nm.as_str()) && (!in_lib(nm) || (origin == "library-named" && read_somewhere(nm))) && !nm.starts_with('_') && nm != "..."
+        names.retain(|nm| !RESERVED.contains(&nm.as_str()) && (!in_lib(nm) || ((origin == "library-named" || origin == "generated") && read_somewhere(nm))) && !nm.starts_with('_') && nm != "..."
             && !src.contains(&format!("\"{nm}\"")) && !src.contains(&format!("'{nm}'")));
         if names.is_empty() {
             continue;
@@ -253,14 +268,28 @@ pub fn generate_c14(seed: u64, n: usize, _thorough: bool) -> Cases {
         if src.contains(&fresh) {
             continue;
         }
-        let starts: Vec<usize> = toks.iter().filter(|t| t.2 == name).map(|t| t.0).collect();
+        // the occurrences to rename: the declaring identifiers of the script variables of that name and the
+        // references the scope analysis resolved to them (an unresolved `table.insert` elsewhere keeps its name)
+        let mut owned: std::collections::BTreeSet<usize> = std::collections::BTreeSet::new();
+        for (_, v) in ctx.scope_manager.variables.iter().filter(|(_, v)| v.name == name) {
+            for id in &v.identifiers {
+                owned.insert(id.0);
+            }
+            for rid in &v.references {
+                if let Some(rf) = ctx.scope_manager.references.get(*rid) {
+                    owned.insert(rf.identifier.0);
+                }
+            }
+        }
+        let mine = |t: &(usize, usize, String)| t.2 == name && (!in_lib(&name) || owned.contains(&t.0));
+        let starts: Vec<usize> = toks.iter().filter(|t| mine(t)).map(|t| t.0).collect();
         let mut twin = String::new();
         let mut last = 0;
-        for (s, e, nm) in &toks {
-            if *nm == name {
-                twin.push_str(&src[last..*s]);
+        for t in &toks {
+            if mine(t) {
+                twin.push_str(&src[last..t.0]);
                 twin.push_str(&fresh);
-                last = *e;
+                last = t.1;
             }
         }
         twin.push_str(&src[last..]);
@@ -268,7 +297,8 @@ pub fn generate_c14(seed: u64, n: usize, _thorough: bool) -> Cases {
         let delta = fresh.len() - name.len();
         let (c1, c2) = (astdump::chunk(&ast), astdump::chunk(&ast2));
         let ast_terms = match (c1, c2) {
-            (Some(a), Some(b)) if r.chance(1, 2) => format!("(Some ({}, {}))", a, b),
+            // the tree comparison renames by name: only when every token of that name was renamed
+            (Some(a), Some(b)) if r.chance(1, 2) && toks.iter().all(|t| t.2 != name || mine(t)) => format!("(Some ({}, {}))", a, b),
             _ => "None".to_string(),
         };
         cases.push(
